@@ -262,3 +262,24 @@ func fail(t *rapid.T, id, kind string, payload any, format string, args ...any) 
 	ev.Repro(id, kind, payload)
 	t.Fatalf(format, args...)
 }
+
+// closedForms runs a session on the real pipeline and compares the rendering
+// of each statement's value with an expected text ("" = not checked).
+func closedForms(stmts []string, expect []string) string {
+	s := run.NewSession()
+	for i, src := range stmts {
+		vr := s.Run(src, false, 0)
+		if vr.Panic != "" {
+			return fmt.Sprintf("stmt %d: panic %s", i, firstLine(vr.Panic))
+		}
+		if i < len(expect) && expect[i] != "" {
+			if vr.Err != "" {
+				return fmt.Sprintf("stmt %d: %s, expected value %s", i, vr.Err, expect[i])
+			}
+			if got := ref.Str(vr.Val); got != expect[i] {
+				return fmt.Sprintf("stmt %d: value %s, closed form %s", i, clipS(got), expect[i])
+			}
+		}
+	}
+	return ""
+}
